@@ -216,3 +216,21 @@ func PeriodName(p state.ValidationPeriod) string {
 	}
 	return "?"
 }
+
+// Summary lists the blocks of the history with their transactions (for failure messages).
+func (h *History) Summary() string {
+	var sb strings.Builder
+	for _, b := range h.Blocks {
+		sb.WriteString(BlockDesc(b))
+		for _, tx := range b.Body.Transactions {
+			from, _ := types.Sender(tx)
+			to := "-"
+			if tx.To != nil {
+				to = h.W.Name(*tx.To)
+			}
+			fmt.Fprintf(&sb, " %s(%s->%s)", TxTypeNames[tx.Type], h.W.Name(from), to)
+		}
+		sb.WriteString("\n")
+	}
+	return sb.String()
+}
